@@ -145,6 +145,10 @@ type SexpArraySelector struct {
 }
 
 func (si *SexpArraySelector) SexpString(ps *PrintState) string {
+	if si.Container == nil || si.Select == nil {
+		// the zero selector, as (var x arraySelector) makes it
+		return "(arraySelector unset)"
+	}
 	//Q("in SexpArraySelector.SexpString(), si.Container.Env = %p", si.Container.Env)
 	rhs, err := si.RHS(si.Container.Env)
 	if err != nil {
@@ -183,6 +187,10 @@ func selectorIntBound(sx Sexp, name string) (int64, error) {
 }
 
 func (x *SexpArraySelector) sliceBounds() (start, end int64, isSlice bool, err error) {
+	if x.Container == nil || x.Select == nil {
+		// the zero selector, as (var x arraySelector) makes it
+		return 0, 0, false, fmt.Errorf("SexpArraySelector: selector is not set")
+	}
 	selectors := x.Select.Val
 	colonPos := -1
 	for i, sx := range selectors {
